@@ -15,7 +15,7 @@ ARGV = [b"", b"x", b"a.b", b"a.b.c", b"/", b"/a", b"/a/", b"/a/b", b"com.example
 
 DEFAULT_WEIGHTS = {
     "connect": 4, "hello": 6, "close": 2, "request": 14, "release": 7, "query": 6, "addmatch": 8, "removematch": 4,
-    "signal": 12, "call": 12, "reply": 8, "driver_edge": 5, "forged": 6, "garbage": 1, "badtype": 2, "nodest": 2,
+    "signal": 12, "call": 12, "reply": 8, "driver_edge": 5, "forged": 6, "garbage": 1, "badtype": 2, "nodest": 2, "sleep": 0,
 }
 
 
@@ -122,6 +122,9 @@ class Gen:
             k = "signal"
         if k == "connect":
             k = "request"
+        if k == "sleep":
+            self.ops.append(("sleep",)); self.count("sleep"); self.calls = []
+            return
         if k == "hello":
             cid = self.some_conn(active=False) if self.r.random() < 0.7 else self.some_conn()
             if cid is None: cid = self.some_conn()
@@ -189,6 +192,7 @@ class Gen:
                 caller, dest, s = self.r.choice(self.calls)
                 to = self.open[caller]["unique"] if caller in self.open and self.open[caller]["unique"] else b":1.99"
                 if self.r.random() < 0.1: s = ((s + 1) & 0xffffffff) or 1
+                if self.r.random() < 0.04: s = 0        # reply serial 0: not a valid message
             else:
                 to, s = self.some_dest(), self.r.randint(1, 6)
             err = "com.example.Err" if self.r.random() < 0.4 else None
